@@ -22,13 +22,17 @@ Decided:
              y+x / y-x and negates 2dxy, applied iff b < 0
   decode     point decoding negates x iff parity(x) != sign bit  [KNOWN FINDING: the tree implements
              the ref10 negated convention]
-  fe-bounds  the proviso of the limb identities: fe64 closed bound vector, fe32 tight/loose contracts, no overflow assert, no
-             lossy narrowing (interval abstract interpretation, both backends)
+  fe-bounds  the proviso of the limb identities: fe64 closed bound vector, fe32 tight/loose contracts (operands built from
+             up to three TIGHT values without a carry), no overflow assert, no lossy narrowing (interval abstract
+             interpretation, both backends)
+  fe-use     every call site of an fe32 operation anywhere in the crate (ge.rs, the ladder, ed25519 conversions) hands it
+             operands within that contract: level dataflow (constants / products 1, sums add, struct fields by type,
+             parameters and returns by fixpoint); nobody outside fe32 touches Fe limbs
   encode     to_packed / to_bytes: reduction identity, reduced digits, bit packing; decode32: fe32 from_bytes identity
   sc32       scalar32 reduce / muladd: digit provenance, congruence modulo L, bounds, packing; Scalar::ZERO tables
   window     double_scalarmult_vartime table / digit-use / scan-start rules, Scalar::bits covers all 256 bits (shared with C14)
 Not decided: Barrett quotient estimation (scalar64), scalarmult_base / double_scalarmult digit arithmetic as numbers, that
-the canonical reduction's quotient is floor(H / p), limb bounds at fe32 call sites in the group code."""
+the canonical reduction's quotient is floor(H / p) (fe32)."""
 import re
 
 from .. import mir, pred, rules, ssa, termbits, fexpr, limbpoly
@@ -689,4 +693,4 @@ def run(ctx):
         ctx.guard("grouplaw", "ge/K2", lambda: check_group_law(ctx, P2))
         ctx.guard("select", "ge/K2", lambda: check_select(ctx, P2, "fe32"))
     ctx.trusted += ["definition-derived oracle cxsa/spec/curve.py", "ssa evaluator, limb-polynomial and polynomial normal forms (ssa.py, limbpoly.py, poly.py)"]
-    ctx.not_decided += ["limb bounds at the call sites of the group code (the per-operation contracts and the fe64 closed invariant are decided by fe-bounds; their composition by ge.rs for fe32 is not)", "Barrett quotient estimation and the final conditional subtractions as numbers", "radix-16 / sliding-window digit arithmetic of the scalar multiplications", "canonical reduction in to_packed / to_bytes"]
+    ctx.not_decided += ["Barrett quotient estimation and the final conditional subtractions as numbers", "radix-16 / sliding-window digit arithmetic of the scalar multiplications", "canonical reduction in to_packed / to_bytes"]
